@@ -84,6 +84,7 @@ struct Plan {
     handle: tokio::runtime::Handle,
     rec: Arc<Recorder>,
     nprobe: AtomicU64,
+    at2_hits: AtomicU64,
 }
 
 /// Accumulates the process-wide event log so that the harness can look at it while running.
@@ -117,7 +118,15 @@ impl Plan {
     }
 
     /// Called synchronously from inside rustrtc at every probe point.
-    fn on_probe(&self, inst: &str, point: &str) {
+    fn on_probe(&self, comp: &str, inst: &str, point: &str) {
+        // points of other components are addressed as "<comp>:<point>"
+        let qualified;
+        let point = if comp == "pc" {
+            point
+        } else {
+            qualified = format!("{comp}:{point}");
+            qualified.as_str()
+        };
         self.nprobe.fetch_add(1, Ordering::Relaxed);
         if inst != self.victim {
             return;
@@ -140,9 +149,15 @@ impl Plan {
                 return;
             }
         }
+        // "<point>#n": the n-th time the point is reached after the first event
+        let (at2_point, at2_nth) = match self.at2.split_once('#') {
+            Some((p, n)) => (p, n.parse::<u64>().unwrap_or(1)),
+            None => (self.at2.as_str(), 1),
+        };
         if self.fired1.load(Ordering::SeqCst)
             && self.ev2 != "none"
-            && point == self.at2
+            && point == at2_point
+            && self.at2_hits.fetch_add(1, Ordering::SeqCst) + 1 == at2_nth
             && !self.fired2.swap(true, Ordering::SeqCst)
         {
             log("life", inst, "race_hit", json!({"point": point}));
@@ -421,11 +436,12 @@ async fn run_c17(sc: &Value, attempt: u64, rec: Arc<Recorder>) -> Value {
         handle: tokio::runtime::Handle::current(),
         rec: rec.clone(),
         nprobe: AtomicU64::new(0),
+        at2_hits: AtomicU64::new(0),
     });
     {
         let p = plan.clone();
-        rustrtc::verif::set_probe(Some(Arc::new(move |_comp: &str, inst: &str, point: &str| {
-            p.on_probe(inst, point);
+        rustrtc::verif::set_probe(Some(Arc::new(move |comp: &str, inst: &str, point: &str| {
+            p.on_probe(comp, inst, point);
         })));
     }
 
@@ -602,6 +618,17 @@ async fn run_c17(sc: &Value, attempt: u64, rec: Arc<Recorder>) -> Value {
                     }
                     last
                 }));
+            }
+            if at2.starts_with("sctp:") {
+                // the application's close() is fired inside the sender's flow-control loop (probe), between its
+                // closed-check and its wait
+                log("app", &victim, "api_begin", json!({"call": "send_data.blocked"}));
+                let hit = wait_until(Duration::from_secs(10), || plan.fired2.load(Ordering::SeqCst)).await;
+                log("life", &victim, "blocked", json!({"blocked": hit, "sent": sent.load(Ordering::SeqCst), "at": at2}));
+                if !hit {
+                    notes.push("flow-control wait point never reached".into());
+                }
+                return;
             }
             // blocked = one call in flight while the counter stands still
             let mut blocked_seen = false;
